@@ -249,6 +249,10 @@ public:
 				genCondTree(s.list, cw, 0); add(s);
 			} else if (c < 92 && o.regs) { // plain register, optional reset value and enable
 				bool isBit = rng.chance(1, 3); int a = isBit ? pickBit() : pickVec();
+				if (rng.chance(1, 5)) { // register fed by a constant ("started" flags): propagateConstants may remove it only if the reset value agrees
+					if (isBit) { Step k{.kind = "bconst", .width = 0, .str = rng.chance(1, 2) ? "1" : "0"}; a = add(k); }
+					else { Step k{.kind = "const", .width = w(a), .str = constStr(w(a))}; a = add(k); }
+				}
 				Step s{.kind = "reg", .width = w(a), .a = a}; if (o.fullyDefined || rng.chance(2, 3)) s.str = constStr(std::max<size_t>(1, w(a)));
 				if (rng.chance(1, 3)) s.b = genCond(); add(s);
 			} else if (c < 96 && o.regs) { // counter / accumulator with feedback: r = reg(r op x, rst), optionally under a condition
@@ -379,14 +383,21 @@ inline Built build(const Recipe &r, const Decoration &deco = {}) {
 			size_t pos = 0; applyCondTree(s.list, pos, vals, vals[i]);
 		}
 		else if (k == "reg") {
+			// decorations may also sit on the reset value path (attribute carriers, named copies)
+			auto decoRst = [&](auto &rv) {
+				if (deco.attribs && drng.chance(1, 2)) { SignalAttributes a; a.maxFanout = 4 + drng.below(8); rv = attribute(rv, a); }
+				if (deco.names && drng.chance(1, 3)) rv.setName("rst" + std::to_string(i));
+				if (deco.copies && drng.chance(1, 3)) { auto copy = rv; copy.setName("rstcopy" + std::to_string(i)); rv = copy; }
+			};
 			auto doReg = [&]() {
-				if (s.width == 0) vals[i] = s.str.empty() ? Bit(reg(bit(s.a))) : Bit(reg(bit(s.a), s.str[0] == '1' ? '1' : '0'));
-				else { if (s.str.empty()) vals[i] = UInt(reg(vec(s.a))); else { UInt rv = constU(s.str); vals[i] = UInt(reg(vec(s.a), rv)); } }
+				if (s.width == 0) { if (s.str.empty()) vals[i] = Bit(reg(bit(s.a))); else { Bit rv = Bit(s.str[0] == '1' ? '1' : '0'); if (deco.any()) decoRst(rv); vals[i] = Bit(reg(bit(s.a), rv)); } }
+				else { if (s.str.empty()) vals[i] = UInt(reg(vec(s.a))); else { UInt rv = constU(s.str); if (deco.any()) decoRst(rv); vals[i] = UInt(reg(vec(s.a), rv)); } }
 			};
 			if (s.b >= 0) { EnableScope en(bit(s.b)); doReg(); } else doReg();
 		}
 		else if (k == "acc") {
 			UInt acc = BitWidth(s.width); UInt rv = constU(s.str);
+			if (deco.attribs && drng.chance(1, 2)) { SignalAttributes a; a.maxFanout = 4 + drng.below(8); rv = attribute(rv, a); }
 			UInt next = acc;
 			{
 				std::optional<ConditionalScope> sc; if (s.b >= 0) sc.emplace(bit(s.b));
@@ -404,7 +415,7 @@ inline Built build(const Recipe &r, const Decoration &deco = {}) {
 				if (deco.names && drng.chance(1, 3)) sig.setName("n" + std::to_string(i) + "_" + std::to_string(drng.below(1000)));
 				if (deco.copies && drng.chance(1, 4)) { auto copy = sig; copy.setName("copy" + std::to_string(i)); sig = copy; }
 				if (deco.comments && drng.chance(1, 4)) sig.node()->setComment("comment " + std::to_string(i));
-				if (deco.attribs && drng.chance(1, 6)) { SignalAttributes a; a.maxFanout = 4 + drng.below(8); attribute(sig, a); }
+				if (deco.attribs && drng.chance(1, 6)) { SignalAttributes a; a.maxFanout = 4 + drng.below(8); sig = attribute(sig, a); } // the attributed signal is the returned one
 				if (deco.taps && drng.chance(1, 8)) tap(sig);
 			};
 			if (std::holds_alternative<Bit>(vals[i])) decorate(std::get<Bit>(vals[i])); else decorate(std::get<UInt>(vals[i]));
